@@ -274,13 +274,7 @@ def coq_bytes(s):
     return "[" + ";".join(str(b) for b in s.encode()) + "]%N"
 
 
-def vm_crosscheck(lines, outputs, spec=False, tag="x"):
-    """Re-evaluates run_line on each case with vm_compute inside coqc and
-    compares with the extracted model's answers.  Returns list of bad indices
-    (or None if coqc itself failed)."""
-    if not lines:
-        return []
-    os.makedirs(WORK, exist_ok=True)
+def _vm_crosscheck_chunk(lines, outputs, spec, tag):
     name = "cases_%s_%d" % (tag, os.getpid())
     path = os.path.join(WORK, name + ".v")
     with open(path, "w") as f:
@@ -292,7 +286,9 @@ def vm_crosscheck(lines, outputs, spec=False, tag="x"):
         f.write("Definition bad := filter (fun p => negb (bytes_eqb (run_line %s (fst (snd p))) (snd (snd p))))\n"
                 "  (combine (map N.of_nat (seq 0 (length cases))) cases).\n" % ("true" if spec else "false"))
         f.write("Eval vm_compute in (map fst bad).\n")
-    rc, out = sh(["timeout", "1200", "coqc", "-noglob", "-Q", os.path.join(COQ, "theories"), "WF", path],
+    # a large stack: the parser and the .vo writer recurse over the long byte-list literals
+    rc, out = sh("ulimit -s unlimited 2>/dev/null || ulimit -s 1000000 2>/dev/null; "
+                 "exec timeout 1200 coqc -noglob -Q %s WF %s" % (os.path.join(COQ, "theories"), path),
                  cwd=WORK, timeout=1300)
     for ext in (".v", ".vo", ".vok", ".vos", ".glob"):
         try:
@@ -303,17 +299,48 @@ def vm_crosscheck(lines, outputs, spec=False, tag="x"):
         os.remove(os.path.join(WORK, "." + name + ".aux"))
     except OSError:
         pass
-    if rc != 0:
-        log("vm_compute cross-check failed to run:\n" + out[-2000:])
-        return None
     m = re.search(r"=\s*\[(.*?)\]\s*:\s*list N", out, re.S)
-    if not m:
-        log("vm_compute cross-check: unparsable output:\n" + out[-2000:])
+    if not m or "Error" in out:
+        log("vm_compute cross-check chunk failed (rc %s):\n%s" % (rc, out[-2000:]))
         return None
+    # the evaluation finished and printed its answer; a non-zero status after that point (writing the .vo of a
+    # very large constant) does not affect the answer
     body = m.group(1).strip()
     if not body:
         return []
     return [int(x.strip().replace("%N", "")) for x in body.split(";")]
+
+
+def vm_crosscheck(lines, outputs, spec=False, tag="x"):
+    """Re-evaluates run_line on each case with vm_compute inside coqc and
+    compares with the extracted model's answers.  Returns list of bad indices
+    (or None if coqc itself failed).  Cases are evaluated in chunks (a separate coqc each)."""
+    if not lines:
+        return []
+    os.makedirs(WORK, exist_ok=True)
+    bad = []
+    size = 0
+    start = 0
+    chunk = []
+    chunks = []
+    for i, (a, b) in enumerate(zip(lines, outputs)):
+        chunk.append((a, b))
+        size += len(a) + len(b)
+        if len(chunk) >= 120 or size > 400000:
+            chunks.append((start, chunk))
+            start, chunk, size = i + 1, [], 0
+    if chunk:
+        chunks.append((start, chunk))
+    for k, (off, ch) in enumerate(chunks):
+        r = None
+        for attempt in range(2):
+            r = _vm_crosscheck_chunk([a for a, _ in ch], [b for _, b in ch], spec, "%s_%d" % (tag, k))
+            if r is not None:
+                break
+        if r is None:
+            return None
+        bad += [off + j for j in r]
+    return bad
 
 
 # --------------------------------------------------------------------------
